@@ -470,6 +470,9 @@ def rule_molecule(rep, cx):
     mol = e10.Obj("molgrid", cls="MolGrid", atgrids=grids, aim_weights=aw, indices=e10.arr(idx),
                   atcoords=e10._obj_array([[sp.Symbol(f"c{a}{k}") for k in range(3)] for a in range(2)]),
                   __getitem__=lambda i: grids[int(i)], size=N)
+    # the private fields behind the read-only properties (a helper of the class may read them directly)
+    for pub, priv in (("atgrids", "_atgrids"), ("aim_weights", "_aim_weights"), ("indices", "_indices"), ("atcoords", "_atcoords")):
+        mol.attrs[priv] = mol.attrs[pub]
     it = e10.Interp({g.name: g.node for g in cx.repo.funcs.values()
                      if g.module == "molgrid" and g.cls is None and g.parent is None and isinstance(g.node, ast.FunctionDef)}, {},
                     module_globals={k: v for k, v in e10.module_globals_of(cx.repo.modules["molgrid"].tree).items()
